@@ -153,3 +153,59 @@ func VxDataPatch() {
 		vxAssert("transactional storage: committed state is untouched by a failed patch", same)
 	}
 }
+
+// reads return exactly the requested version of the register: the real pathDataRead for 0..3 existing versions each
+// live, soft-deleted or destroyed, ANY requested version number (0 = current), plain and transactional storage:
+// the data returned is that of exactly the version asked for (never another version's), deleted / destroyed versions
+// and unknown version numbers yield no data, and a read writes nothing.
+func VxDataRead() {
+	vxPStatus = 0
+	vxAssume(vxTimeLT(time.Time{}, time.Now()))
+	current := vxChoose("existing versions", 4)
+	transactional := vxBool("transactional storage")
+	b, store, pre := vxSetup(current, transactional)
+	states := make([]int, current+1)
+	for v := 1; v <= current; v++ {
+		i := vxE.committed.find("versions/foo/" + strconv.Itoa(v))
+		vxE.committed.vals[i] = vxBox(Version{Data: vxBox(map[string]any{"doc": v})})
+		states[v] = vxChoose("version state (live, soft-deleted, destroyed)", 3)
+		switch states[v] {
+		case 1:
+			pre.Versions[uint64(v)].DeletionTime = &timestamppb.Timestamp{Seconds: 1}
+		case 2:
+			pre.Versions[uint64(v)].Destroyed = true
+		}
+	}
+	if current > 0 {
+		vxE.committed.vals[vxE.committed.find("metadata/foo")] = vxBox(pre)
+	}
+	before := vxE.committed.clone()
+	want := vxInt("requested version")
+	vxE.reading = true
+	req := &logical.Request{Storage: store, Path: "data/foo", Operation: logical.ReadOperation}
+	resp, err := b.pathDataRead()(context.Background(), req, &framework.FieldData{Raw: map[string]any{"path": "foo", "version": want}})
+	vxAssert("key lock released on exit", vxHeld(vxE.lock) == 0)
+	vxAssert("a read succeeds or answers not-found", err == nil)
+	same := len(before.keys) == len(vxE.committed.keys) && vxE.commits == 0
+	for i := range before.keys {
+		same = same && before.keys[i] == vxE.committed.keys[i] && string(before.vals[i]) == string(vxE.committed.vals[i])
+	}
+	vxAssert("a read writes nothing", same)
+	eff := want
+	if want <= 0 {
+		eff = current
+	}
+	var got map[string]any
+	if resp != nil && vxPStatus == 0 && resp.Data != nil {
+		got, _ = resp.Data["data"].(map[string]any)
+	}
+	if eff >= 1 && eff <= current && states[vxConc(eff)] == 0 {
+		vxReach("read: live version")
+		vxAssert("a live version is returned, and it is exactly the version asked for", got != nil && got["doc"] == eff)
+		md, _ := resp.Data["metadata"].(map[string]any)
+		vxAssert("the metadata names that version", md != nil && md["version"] == uint64(eff))
+	} else {
+		vxReach("read: nothing to return")
+		vxAssert("unknown, soft-deleted and destroyed versions yield no data", got == nil)
+	}
+}
